@@ -194,6 +194,8 @@ int last_shm_obj() { Task *t = cur(); return t ? k->last_shm[t->id] : -1; }
 bool last_shm_created() { Task *t = cur(); return t && k->last_shm_created[t->id]; }
 const char *last_sem_name() { Task *t = cur(); return t ? k->last_sem_name[t->id].c_str() : ""; }
 const char *last_shm_name() { Task *t = cur(); return t ? k->last_shm_name[t->id].c_str() : ""; }
+bool last_sem_created() { Task *t = cur(); return t && k->last_sem_created[t->id]; }
+int sem_init_value(int obj) { return obj >= 0 && obj < (int)k->sem_objs.size() ? k->sem_objs[obj]->init_value : -1; }
 int sem_value(int obj) { return obj >= 0 && obj < (int)k->sem_objs.size() ? k->sem_objs[obj]->value : -1; }
 int sem_open_refs(int obj) { return obj >= 0 && obj < (int)k->sem_objs.size() ? k->sem_objs[obj]->open_refs : 0; }
 bool sem_name_bound(const char *n) { return k->sem_names.count(n) != 0; }
@@ -299,6 +301,7 @@ sem_t *simk_sem_open(const char *name, int oflag, ...) {
   else {
     auto it = k->sem_names.find(name);
     SemObj *o = nullptr;
+    bool created_now = false;
     if (it != k->sem_names.end()) {
       if ((oflag & O_CREAT) && (oflag & O_EXCL)) err = EEXIST;
       else o = it->second;
@@ -307,7 +310,8 @@ sem_t *simk_sem_open(const char *name, int oflag, ...) {
       else if (value > (unsigned)SEM_VALUE_MAX) err = EINVAL;
       else {
         o = new SemObj();
-        o->id = (int)k->sem_objs.size(); o->name = name; o->linked = true; o->value = (int)value; o->vc.clear();
+        o->id = (int)k->sem_objs.size(); o->name = name; o->linked = true; o->value = (int)value; o->init_value = (int)value; o->vc.clear();
+        created_now = true;
         k->sem_objs.push_back(o);
         k->sem_names[name] = o;
         ev("sem_create", o->id, (int64_t)value);
@@ -322,6 +326,7 @@ sem_t *simk_sem_open(const char *name, int oflag, ...) {
         ret = r.handle;
       } else { e->second.refs++; ret = e->second.handle; probe("sem.same_process_reopen"); }
       k->last_sem[t->id] = o->id;
+      k->last_sem_created[t->id] = created_now;
       ev("sem_open", o->id);
     }
   }
